@@ -10,7 +10,7 @@ open F64
 /-- days since 1970-01-01 → (year, month, day) (proleptic Gregorian; Hinnant's algorithm) -/
 def civilFromDays (z0 : Int) : Int × Nat × Nat :=
   let z := z0 + 719468
-  let era := (if z ≥ 0 then z else z - 146096) / 146097
+  let era := z / 146097                       -- `/` on Int is floor division: no C-style adjustment
   let doe := (z - era * 146097).toNat
   let yoe := (doe - doe / 1460 + doe / 36524 - doe / 146096) / 365
   let y : Int := (yoe : Int) + era * 400
@@ -68,7 +68,7 @@ def jsonTypeDoc (d : Doc) : Doc := jsonTypeKV d
 /-- (year, month, day) → days since 1970-01-01 (Hinnant's algorithm, inverse of `civilFromDays`) -/
 def daysFromCivil (y0 : Int) (m d : Nat) : Int :=
   let y := if m ≤ 2 then y0 - 1 else y0
-  let era := (if y ≥ 0 then y else y - 399) / 400
+  let era := y / 400                          -- floor division
   let yoe := (y - era * 400).toNat
   let mp := if m > 2 then m - 3 else m + 9
   let doy := (153 * mp + 2) / 5 + d - 1
